@@ -480,7 +480,8 @@ def really_changed(path_stmts, local_names=None):
                     last_def[nm] = s
                     aug_steps.setdefault(nm, [])
                     if isinstance(s, ast.AugAssign) and isinstance(s.op, (ast.Add, ast.Sub)):
-                        aug_steps[nm].append(s)
+                        if aug_steps[nm] is not None:  # None: plainly assigned earlier on this path (see plain_seen)
+                            aug_steps[nm].append(s)
                     else:
                         aug_steps[nm] = None if not isinstance(s, ast.AugAssign) else aug_steps[nm]
                         if not isinstance(s, ast.AugAssign):
